@@ -5,7 +5,7 @@ from autobean_refactor import models
 CASES = {'quick': 4000, 'thorough': 60000}
 SMALL_BLOCKS = 4      # runner: every 4th case keeps its stores in 2..10-token blocks
 GATES = {
-    'quick': {'cases_in_small_blocks': 50, 'evaluations': 8000, 'steps_with_visible_change': 6500, 'op_kinds_seen': 60, 'crlf_documents': 300},
+    'quick': {'cases_in_small_blocks': 50, 'evaluations': 7000, 'steps_with_visible_change': 6000, 'op_kinds_seen': 60, 'crlf_documents': 300},
     'thorough': {'evaluations': 200000, 'op_kinds_seen': 70},
 }
 RULE = ('case = one accepted generated document and a history of 1..12 (thorough ..60) *syntax-preserving* catalog operations (the '
